@@ -92,6 +92,12 @@ chk('C06', 'exploration', 'bounded exhaustive enumeration of formulas x io assig
     'trusted: reference with predicate hook (vf/refsem.py, vf/dref.py)',
     'DESIGN.md section 5 C06')
 
+chk('C08', 'exploration', 'exhaustive enumeration of the configuration lattice of unit spellings x traces on the real monitors',
+    'for each bounded-operator formula ALL spellings of its bounds (25 suffix combinations x 3 default units x 4 sampling periods) are parsed and monitored offline, online and pastified online on all traces up to length 3-4 and must return the reference of the sample-count bounds; '
+    'all spellings of non-multiple bounds must be rejected with RTAMTException; dense time: all spellings x default units with rescaled time-stamps against the dense reference',
+    'one open finding (non-multiple bounds whose width is a multiple are accepted after pastify) suppressed by a syntactic predicate on the reject cases',
+    'DESIGN.md section 5 C08')
+
 def main():
     props = [json.loads(l) for l in open(os.path.join(ROOT, 'properties.jsonl'))]
     checks = []
